@@ -28,6 +28,7 @@ Owned(P, s) ==
     [] Prop = "C17" -> op \in {"gradient1", "gradient2", "manifold", "mul"}
     [] Prop = "C18" -> op \in {"wrap", "unwrap", "to_n", "to_f64", "to_d1", "to_d2", "set_order", "set_order_clone", "py"} \/ AnyWrapped(P, s)
     [] Prop = "C19" -> op \in {"lt", "le", "gt", "ge", "eq", "ne", "abs", "rem", "sum", "zero", "one", "add", "mul", "signum", "is_positive", "is_negative", "is_zero", "abs_sub"}
+                       \/ (op = "py" /\ P.steps[s].ins.name \in (DOMAIN PyCmp) \cup {"__abs__"})      \* the comparisons as Python reaches them
     [] OTHER -> TRUE
 LeafOwned == Prop \in {"C03", "C17", "C18", "C20", "ALL"}
 BadLeaves(P) == IF LeafOwned THEN {i \in 1..Len(P.leaves) : LeafVerdict(P, i) = "bad"} ELSE {}
